@@ -102,6 +102,7 @@ class Driver(object):
         self._obj0 = CallableObject()
         self._partial2 = functools.partial(closures[2])
         self.current = []
+        self.emitted = []
 
     @property
     def cbs(self):
@@ -114,12 +115,18 @@ class Driver(object):
                 return i
         return '?'
 
+    def show(self, a):
+        # what a listener was handed: plain values as they are, anything else by its class and by whether it is the very object that was emitted
+        if isinstance(a, (int, str)):
+            return a
+        return '<%s%s>' % (type(a).__name__, ', the emitted object' if any(a is e for e in self.emitted) else ', another object')
+
     def _unused(self):
         self.current = []
 
     def _mk(self, i):
         def cb(*args, **ctx):
-            self.log.append((i, list(args), sorted(ctx.items())))
+            self.log.append((i, [self.show(a) for a in args], sorted(ctx.items())))
             n = self.count[i]
             self.count[i] += 1
             script = self.scripts[i] if i < len(self.scripts) else []
@@ -137,6 +144,9 @@ class Driver(object):
             self.em.on(event_key(act[1]), self.cbs[act[2]], dict(act[3]) if act[3] else None)
         elif kind == 'once':
             self.em.once(event_key(act[1]), self.cbs[act[2]], dict(act[3]) if act[3] else None)
+        elif kind == 'on_many':
+            for _ in range(act[3]):
+                self.em.on(event_key(act[1]), self.cbs[act[2]], None)
         elif kind == 'off':
             self.em.off(event_key(act[1]))
         elif kind == 'offcb':
@@ -150,8 +160,14 @@ class Driver(object):
                     self.stats['nested-same-name'] = self.stats.get('nested-same-name', 0) + 1
             self.depth += 1
             self.current.append(act[1])
+            args = []
+            for a in act[2]:
+                if a == 'it':
+                    a = iter([1, 2, 3])          # an argument that can be walked only once: it reaches every listener as the object it is
+                    self.emitted.append(a)
+                args.append(a)
             try:
-                self.em.emit(event_key(act[1]), act[1], *act[2])
+                self.em.emit(event_key(act[1]), act[1], *args)
             finally:
                 self.current.pop()
                 self.depth -= 1
@@ -258,7 +274,7 @@ def case_strategy():
         names = st.sampled_from([nm[0], nm[0], nm[0], nm[1], nm[1], nm[2]])
         cbid = st.integers(0, NCB - 1)
         ctx = st.one_of(st.just([]), st.just([]), st.lists(st.tuples(st.sampled_from(['kx', 'ky', 'self', 'name', 'callback', 'args']), st.integers(0, 3)), max_size=2, unique_by=lambda t: t[0]).map(lambda l: [list(t) for t in l]))
-        args = st.lists(st.integers(0, 9), max_size=2)
+        args = st.lists(st.one_of(st.integers(0, 9), st.integers(0, 9), st.integers(0, 9), st.just('it')), max_size=2)
         sub = st.one_of(st.tuples(st.just('on'), names, cbid, ctx), st.tuples(st.just('once'), names, cbid, ctx)).map(list)
         unsub = st.one_of(st.tuples(st.just('off'), names), st.tuples(st.just('offcb'), names, cbid), st.tuples(st.just('offcb'), names, cbid)).map(list)
         emit = st.tuples(st.just('emit'), names, args).map(list)
@@ -266,8 +282,9 @@ def case_strategy():
         script = st.lists(st.lists(act, min_size=1, max_size=3), max_size=3)
         scripts = st.lists(script, min_size=NCB, max_size=NCB)
         rnd = st.tuples(st.lists(act, max_size=3), emit).map(lambda t: t[0] + [t[1]])
-        ops = st.tuples(st.lists(sub, min_size=2, max_size=6), st.lists(rnd, min_size=1, max_size=8)).map(
-            lambda t: t[0] + [a for r in t[1] for a in r])
+        many = st.one_of(st.just([]), st.just([]), st.just([]), st.just([]), st.tuples(st.just('on_many'), names, cbid, st.integers(31, 40)).map(lambda t: [list(t)]))     # a name with dozens of listeners
+        ops = st.tuples(st.lists(sub, min_size=2, max_size=6), many, st.lists(rnd, min_size=1, max_size=8)).map(
+            lambda t: t[0] + t[1] + [a for r in t[2] for a in r])
         return st.fixed_dictionaries({'impl': st.just(impl), 'scripts': scripts, 'ops': ops})
     return st.sampled_from(['emitter', 'emitter', 'emitter0', 'emittert', 'parser', 'parser']).flatmap(build)
 
